@@ -21,7 +21,7 @@ META = dict(
     property="C53",
     level="fault_enumeration",
     technique="random write/rotate/reopen histories on the real LogFile with an exact directory-transition oracle after every operation, plus directory snapshots before every remove/rename/open inside rotate() (crash states) checked for the suffix property and for a clean continuation",
-    level_text="Histories of bytes and (multi-byte) text writes, explicit rotate(), flush, reopen() and close+new instance, rotateLength 1..200 or None, maxRotatedFiles None, 1..4 or 9..14, optionally up to 13 pre-existing rotated files (so that suffixes reach two digits), several file names. After every operation the whole directory is compared with the permitted transitions (exact content of every file). Every crash point inside every rotation (before each os.remove/os.rename and before the new file is opened) is enumerated: the files present, oldest first, must be a byte suffix of everything written (everything, if there is no retention count), and a new LogFile opened on that state must rotate once more with the same guarantee. Histories are sampled (Hypothesis) plus a complete enumeration of short histories over a small alphabet.",
+    level_text="Histories of bytes and (multi-byte) text writes, explicit rotate(), flush, reopen() (also after an external tool has moved or truncated the current file, the documented use of reopen()) and close+new instance, rotateLength 1..200 or None, maxRotatedFiles None, 1..4 or 9..14, optionally up to 13 pre-existing rotated files (so that suffixes reach two digits), several file names. After every operation the whole directory is compared with the permitted transitions (exact content of every file). Every crash point inside every rotation (before each os.remove/os.rename and before the new file is opened) is enumerated: the files present, oldest first, must be a byte suffix of everything written (everything, if there is no retention count), and a new LogFile opened on that state must rotate once more with the same guarantee. Histories are sampled (Hypothesis) plus a complete enumeration of short histories over a small alphabet.",
     level_note="Promptness of rotation is not asserted (the statement does not; LogFile counts characters, not bytes, so rotation after multi-byte text may come late, which the statement allows). Runs as a user for whom os.access() succeeds. Process-crash model: completed system calls persist in order. Partial writes of a single write() are not enumerated (the file is unbuffered; a prefix of the last write is trivially a suffix-preserving state).",
     design_ref="§5 C53",
     rule="case = (name, rotateLength, maxRotatedFiles, pre-existing rotated files, operation list). One evaluation = one history with all its crash states. non-trivial = a rotation that had at least one older rotated file to move (or drop); distinct by (retention count, contents of the files before the rotation).",
@@ -182,6 +182,8 @@ def run_case(ctx, case):
         lf = mk()
         current = current or b""
         rotations = 0
+        moved = 0
+        external = False
         for n, op in enumerate(case["ops"]):
             kind = op[0]
             data = b""
@@ -205,6 +207,24 @@ def run_case(ctx, case):
                 elif kind == "new":
                     lf.close()
                     lf = mk()
+                elif kind in ("ext_move", "ext_truncate"):
+                    # an external rotation tool takes the current file away
+                    # (rename) or copies and truncates it, then asks the logger
+                    # to reopen(): the documented purpose of reopen()
+                    moved += 1
+                    rec.active = False
+                    if kind == "ext_move":
+                        _os_rename(os.path.join(d, name), os.path.join(work, f"moved-away.{moved}"))
+                    else:
+                        with _builtin_open(os.path.join(d, name), "r+b") as fh:
+                            fh.truncate(0)
+                    rec.active = True
+                    lf.reopen()
+                    # what the tool took is no longer the logger's to retain
+                    current = b""
+                    written = _concat(rotated, None)
+                    ctx.count("external " + ("move" if kind == "ext_move" else "truncate") + " + reopen()")
+                    external = True
                 else:
                     raise AssertionError(kind)
             finally:
@@ -249,6 +269,8 @@ def run_case(ctx, case):
                     if not rot_len or len(current) < rot_len:
                         ctx.violation("rotated-below-rotateLength", case,
                                       f"{what}: the current file was rotated at {len(current)} bytes, rotateLength={rot_len}")
+                if external:
+                    ctx.count("rotation after an external move/truncate + reopen()")
                 if rotated:
                     ctx.nontrivial((keep, sorted(rotated.items()), current))
                     ctx.count("rotation moving older files")
@@ -274,6 +296,7 @@ def _strategy(names):
         st.tuples(st.just("w"), chunk), st.tuples(st.just("w"), chunk), st.tuples(st.just("w"), chunk),
         st.tuples(st.just("t"), text), st.tuples(st.just("t"), text),
         st.tuples(st.just("rotate")), st.tuples(st.just("reopen")), st.tuples(st.just("new")),
+        st.tuples(st.just("ext_move")), st.tuples(st.just("ext_truncate")),
         st.tuples(st.just("flush")),
     )
     return st.builds(
@@ -289,7 +312,7 @@ def _strategy(names):
 
 
 def _small(maxlen):
-    alphabet = [("w", b"ab"), ("w", b"cdefg"), ("t", "é"), ("rotate",), ("new",)]
+    alphabet = [("w", b"ab"), ("w", b"cdefg"), ("t", "é"), ("rotate",), ("new",), ("ext_move",), ("ext_truncate",)]
     for rot_len in (1, 3):
         for keep in (None, 1, 2):
             def rec(prefix):
